@@ -560,14 +560,24 @@ class App:
                 )
 
             self._unprepared_middleware += middleware  # type: ignore[arg-type]
+            added = len(middleware)  # type: ignore[arg-type]
+        else:
+            added = 0
 
         # NOTE(kgriffs): Even if middleware is None or an empty list, we still
         #   need to make sure self._middleware is initialized if this is the
         #   first call to add_middleware().
-        self._middleware = self._prepare_middleware(
-            self._unprepared_middleware,
-            independent_middleware=self._independent_middleware,
-        )
+        try:
+            self._middleware = self._prepare_middleware(
+                self._unprepared_middleware,
+                independent_middleware=self._independent_middleware,
+            )
+        except Exception:
+            # NOTE: Do not leave the refused components behind; they are not
+            #   part of the stack.
+            if added:
+                del self._unprepared_middleware[-added:]
+            raise
 
     def add_route(self, uri_template: str, resource: object, **kwargs: Any) -> None:
         """Associate a templatized URI path with a resource.
